@@ -38,6 +38,9 @@ class Namer:
                 w = "_".join(self.rng.choice(WORDS) for _ in range(self.rng.randint(9, 12)))[:self.rng.choice([40, 41, 42, 43, 44, 46, 50, 55])]
             n = f"{prefix}{self.tag}{w}{self.rng.randint(0, 99)}"
             n = n.upper() if upper else n.lower()
+            if upper and self.rng.random() < 0.06:
+                # identifiers need not be upper case
+                n = self.rng.choice([n.lower(), n.title().replace("_", ""), n[0].upper() + n[1:].lower()])
             if upper and self.rng.random() < self.embedded:
                 # ordinary words that happen to contain a section prefix of one of the output formats
                 # (pyraMID_, orcHID_, forMT_ ..., and a mixed-case one)
@@ -200,6 +203,13 @@ class Gen:
             if rng.random() < 0.3:
                 # characters that need escaping in one or another target language
                 s = "".join(rng.choice("ab 01" + "\"\\'%#") for _ in range(rng.randint(1, 12))).strip() or "\""
+            r_ = rng.random()
+            if r_ < 0.05:
+                s = ""                                                     # the empty string
+            elif r_ < 0.12:
+                s = " ".join(rng.choice(["alpha:beta", "x=1;", "note", "a/b", "100%", "(k)"]) for _ in range(rng.randint(12, 30)))   # well over 80 columns
+            elif r_ < 0.18:
+                s = "".join(rng.choice("aé µΩ°ß") for _ in range(rng.randint(1, 10))).strip() or "é"          # not ASCII
             y = s.replace("'", "''")
             sections["string_constants"].append(f"  {n}: '{y}'")
             D.strings[n] = s
